@@ -72,7 +72,7 @@ def _build(case):
             rows.append({"s": "s%d" % i, "p": name, "t": ["t0", "t9"], "d": [1.0, 1.0], "o": 0.5})
             observed.append(name)
     if case["multi"]:
-        name = "mixed"
+        name = "%02d_mixed" % (keys[-1] if keys else 0)  # drawn sort key: the two-sample plate takes an id another plate had on a smaller screen
         rows.append({"s": "s0", "p": name, "t": ["t0", "t9"], "d": [1.0, 1.0], "o": 0.5})
         rows.append({"s": "sX", "p": name, "t": ["t0", "t9"], "d": [1.0, 1.0], "o": 0.5})
         if case["multi_observed"]:
@@ -108,6 +108,13 @@ def check_case(case):
 
     multi_unobserved = case["multi"] and not case["multi_observed"]
     if multi_unobserved:
+        # the same policy object has been used before on a screen whose plates are all single-sample (a policy is a
+        # long-lived configuration object; plate ids are only meaningful within one screen)
+        clean = _build(dict(case, multi=False))
+        if clean["rows"]:
+            s0 = S.build_screen(clean)
+            p0 = sorted((p_ for p_ in s0.plates if not bool(np.all(p_.observation_mask))), key=lambda p_: int(p_.plate_id))
+            policy.filter_eligible_plates(batch_plates=[], unobserved_plates=p0, rng=rng)
         # a plate with two samples among the candidates: refused
         try:
             call_policy([])
